@@ -103,9 +103,21 @@ fn run_case(partial: bool, script: &[Step], ops: &[Op], out: &mut impl Write) {
             }
         }
         writeln!(out, "M {}", script::log_line(&core)).unwrap();
-        let verdict = catch_unwind(AssertUnwindSafe(move || drop(u)));
+        // the mock is finished like a test would finish it: dropped, or (every other case) returned from the
+        // test function, i.e. Termination::report -- which must give the same verdict
+        static CASE_NO: std::sync::atomic::AtomicUsize = std::sync::atomic::AtomicUsize::new(0);
+        let use_report = CASE_NO.fetch_add(1, std::sync::atomic::Ordering::SeqCst) % 2 == 1;
+        let verdict: Result<bool, _> = catch_unwind(AssertUnwindSafe(move || {
+            if use_report {
+                use std::process::{ExitCode, Termination};
+                format!("{:?}", u.report()) == format!("{:?}", ExitCode::SUCCESS)
+            } else {
+                drop(u);
+                true
+            }
+        }));
         if !panicked {
-            writeln!(out, "M verify={}", if verdict.is_ok() { "ok" } else { "fail" }).unwrap();
+            writeln!(out, "M verify={}", if matches!(verdict, Ok(true)) { "ok" } else { "fail" }).unwrap();
         }
     }
 }
